@@ -489,6 +489,29 @@ func (env *specEnv) evalCall(x *ECall) SVal {
 		return env.eval(x.Args[i])
 	}
 	switch x.Fun {
+	case "visited":
+		// visited(N, k): key k was already produced by the map iteration of loop N
+		n, ok := x.Args[0].(*EInt)
+		if !ok || len(x.Args) != 2 {
+			specFail("visited(loop ordinal, key)")
+		}
+		for _, l2 := range env.f.loops {
+			if int64(l2.ordinal) != n.V.Int64() {
+				continue
+			}
+			for _, in := range l2.header.Instrs {
+				if nx, ok := in.(*ssa.Next); ok {
+					if rg, ok := nx.Iter.(*ssa.Range); ok {
+						if mt, ok := types.Unalias(rg.X.Type()).Underlying().(*types.Map); ok {
+							ks := c.sortOf(mt.Key())
+							vis := c.heapGet(env.heap, "G iter "+rg.Name(), arraySort(ks, SBool))
+							return SVal{T: sel(vis, arg(1).T)}
+						}
+					}
+				}
+			}
+		}
+		specFail("visited(%d, k): loop %d is not a range over a map", n.V.Int64(), n.V.Int64())
 	case "nosplit":
 		// identity; tells the clause splitter to keep the argument as one obligation
 		return arg(0)
